@@ -383,7 +383,7 @@ theorem setOffset_nonneg (f : Fam) (x : Obj) (v : Valid f x) (k : Nat) :
     unfold setOffset addressOfInt allOnes
     rw [bcast_eq]
     simp only [asDecimalNetwork]
-    have c1 : (k : Int) ≤ ((x.net + (2 ^ hb f x - 1) : Nat) : Int) - (x.net : Int) := by omega
+    have c1 : (0 : Int) ≤ (k : Int) ∧ (k : Int) ≤ ((x.net + (2 ^ hb f x - 1) : Nat) : Int) - (x.net : Int) := by omega
     have c2 : 0 ≤ (x.net : Int) + (k : Int) ∧ (x.net : Int) + (k : Int) ≤ ((2 ^ f.w - 1 : Nat) : Int) := by
       omega
     simp only [c1, c2, if_true, and_self, bind, Except.bind]
@@ -392,27 +392,15 @@ theorem setOffset_nonneg (f : Fam) (x : Obj) (v : Valid f x) (k : Nat) :
     unfold setOffset
     rw [bcast_eq]
     simp only [asDecimalNetwork]
-    have c1 : ¬ ((k : Int) ≤ ((x.net + (2 ^ hb f x - 1) : Nat) : Int) - (x.net : Int)) := by omega
+    have c1 : ¬ ((0 : Int) ≤ (k : Int) ∧ (k : Int) ≤ ((x.net + (2 ^ hb f x - 1) : Nat) : Int) - (x.net : Int)) := by omega
     simp only [c1, if_false]
 
-/-- as written, a negative offset is accepted whenever `net + k` is still a legal address -/
+/-- a negative offset is rejected (F41 repair) -/
 theorem setOffset_neg (f : Fam) (x : Obj) (k : Int) (hk : k < 0) :
-    (0 ≤ (x.net : Int) + k → x.net ≤ allOnes f →
-      setOffset f x k = .ok { x with ip := ((x.net : Int) + k).toNat }) ∧
-    ((x.net : Int) + k < 0 → setOffset f x k = .error .addressValueError) := by
-  have c1 : k ≤ ((asDecimalBroadcast f x : Nat) : Int) - (asDecimalNetwork x : Int) := by
-    rw [bcast_eq]; simp only [asDecimalNetwork]; omega
-  constructor
-  · intro h0 h1
-    unfold setOffset addressOfInt
-    simp only [asDecimalNetwork] at c1 ⊢
-    have c2 : 0 ≤ (x.net : Int) + k ∧ (x.net : Int) + k ≤ (allOnes f : Int) := by omega
-    simp only [c1, c2, if_true, and_self, bind, Except.bind]
-  · intro h0
-    unfold setOffset addressOfInt
-    simp only [asDecimalNetwork] at c1 ⊢
-    have c2 : ¬ (0 ≤ (x.net : Int) + k ∧ (x.net : Int) + k ≤ (allOnes f : Int)) := by omega
-    simp only [c1, c2, if_true, if_false, bind, Except.bind]
+    setOffset f x k = .error .addressValueError := by
+  unfold setOffset
+  have c : ¬ (0 ≤ k ∧ k ≤ ((asDecimalBroadcast f x : Nat) : Int) - (asDecimalNetwork x : Int)) := by omega
+  simp only [c, if_false]
 
 theorem numhosts_spec (f : Fam) (ok : f.Ok) (x : Obj) (v : Valid f x) :
     numhosts f x = .ok (if x.len + 2 ≤ f.w then 2 ^ hb f x - 2 else if x.len + 1 = f.w then 2 else 1) := by
